@@ -23,6 +23,32 @@ CLAIMS = {
           "Bounds: 2 keys x value lengths {1,8} and 1 key x lengths 0..9 (quick), histories of 2 updates; thorough adds "
           "3-update histories and more lengths."),
     technique="TLA+ spec + TLC model checking; spec->code history replay; code->spec I/O trace validation"),
+
+ "C09": dict(
+    level="model_checking",
+    text=("spec/Dataset.tla models every dataset operation as the plan of filesystem calls and list updates the code "
+          "performs (write_multi, partition_on_columns, find_max_part, overwrite, remove_row_groups, _sort_part_names, "
+          "_write_common_metadata); TLC checks ModelContent/NoOrphans/CommonPresent/PartsBeforeSummary over all histories "
+          "within the constants and that the number-keyed part-id mutant violates them; the exported history tree is "
+          "replayed in real directories with the contract evaluated after every step by an independent projector "
+          "(pqspec) and a fresh ParquetFile; every recorded filesystem-call trace is validated by TLC (DatasetTrace)."),
+    design_ref="DESIGN.md section 5 C09, section 10",
+    note=("Bounds: 3 partition keys, frame sets FramesTiny/FramesSmall, histories of 3 operations (4 in thorough), 0 or 1 "
+          "partition column. Trusted: pqspec reader, os.rename/remove semantics of the local file system. A refusal "
+          "(exception with the dataset unchanged) is accepted."),
+    technique="TLA+ spec + TLC model checking; spec->code history replay; code->spec filesystem-call trace validation"),
+ "C19": dict(
+    level="fault_enumeration",
+    text=("TLC explores Dataset.tla with a Fault action enabled at every filesystem call of every append and checks "
+          "that a fault before the summary rewrite leaves the old content, that no referenced file is opened for "
+          "writing and that parts are complete before the summary is opened (the SummaryFirst mutant violates). On the "
+          "real code every k-th call (mkdir, open-for-write, write, close) of every exported append is failed by "
+          "fault-injecting open_with/mkdirs wrappers, followed by a fresh open from disk; each faulted call trace is "
+          "validated by TLC against DatasetTrace."),
+    design_ref="DESIGN.md section 5 C19, section 10",
+    note=("A fault is an OSError raised instead of performing the call; power-loss effects below the file API (torn "
+          "writes, reordering by the OS) are out of scope. Orphan part files after a failed append are allowed."),
+    technique="TLA+ spec with fault action + TLC; exhaustive fault injection at every filesystem call; trace validation"),
 }
 
 NOT_BUILT = "not built yet (construction order in DESIGN.md section 9)"
